@@ -110,8 +110,10 @@ def explore(contract: Contract, index: Index, registry=None, max_paths=MAX_PATHS
             elif outcome == "return":
                 rep.returns += 1
                 try:
-                    for label, f in contract.ensures(s, args, value):
-                        ctx.oblige(f, f"{label}@{path_id}", kind="ensures", assume_after=False)
+                    for item in contract.ensures(s, args, value):
+                        label, f = item[0], item[1]
+                        # a clause tagged "lemma" is proved first and then available to later clauses
+                        ctx.oblige(f, f"{label}@{path_id}", kind="ensures", assume_after=(len(item) > 2 and item[2] == "lemma"))
                     for label, g in contract.raises_when(s, args):
                         ctx.oblige(T.Not(g), f"must-raise:{label}@{path_id}", kind="raises", assume_after=False)
                     ctx.cover(f"return@{path_id}")
